@@ -140,7 +140,8 @@ def judge(ctx, ex, case):
     if nc > 1:
         ctx.fail("close-sent-twice", case, repr(wire))
     all_idle = all(lt.state == "idle" for lt in ex.rig.threads)
-    if ex.pclose_done and all_idle:
+    write_failed = any(r.startswith("efail") for r in ex.reqs)   # a CLOSE whose wire write raised is not on the wire
+    if ex.pclose_done and all_idle and not write_failed:
         if nc != 1:
             ctx.fail("peer-close-not-answered", case, repr(wire))
         if ex.rig.linked:
